@@ -164,6 +164,22 @@ CLAIMED = {
         "the registry's history dependence is a listed known finding.",
    technique="frame/ownership contracts decided by freshness analysis of the live source; finite enumeration of kinds and ghost registry pre-states",
    engine="FRAME"),
+ "C17": dict(
+   category="proof",
+   text="(a) the real np_fns.randn runs over a ghost model of the process-wide generator (five-component state): post-state = pre-state and the result is "
+        "draw(seed(key), shape).astype(dtype); (b) global effect obligation from the live source of every cola module: no reference to numpy.random / random "
+        "outside np_fns.randn, all draws go through xnp.randn; (c) the real body, stopping rule and initial state of hutchinson_diag_estimate run in the index "
+        "domain over an abstract n x n operator with symbolic n, offset k (k=0, k<0, k>0), block size, key and max_iters: E[diag_sum'[j]] = diag_sum[j] + "
+        "bs*A[j,j+k] with E[z_a z_b] = delta_ab as the only probabilistic axiom, exactness for Rademacher probes on a diagonal operator for every draw, "
+        "key chain key' = next_key(key), continuing implies i < max_iters, mean = diag_sum/(iterations*bs); Hutch.__call__ forwards every field.",
+   design_ref="4.17",
+   note="'within the sampling error implied by its own variance' is statistical and out of reach (only replay harnesses sample it); the NumPy generator is a "
+        "ghost-state model (a 3-tuple passed to set_state resets the cached Gaussian, as in NumPy); scipy's lobpcg internals are not under contract; "
+        "the stopping rule's floating-point error estimate is opaque; the other randomised routines are covered by the effect obligation plus randn's contract "
+        "(their draws are functions of key/shape/dtype), not by a functional contract of their own.",
+   technique="ghost-state contract on the real randn; syntactic effect analysis of the live source; proxy execution of the real Hutchinson loop body in an "
+             "index-function domain with an expectation operator; z3/cvc5",
+   engine="FRAME+IDX"),
 }
 
 NOT_YET = "check not built yet in this session (framework under construction; see DESIGN.md section 10 for the order of work)"
